@@ -321,6 +321,24 @@ KNOWN_GRAMMARS = [
 ]
 
 
+# Grammars outside what the random generator / the reference interpreter cover, on which the generated parser DOES follow PEG
+# semantics (expected values worked out by hand): left recursion hidden behind a nullable rule with several alternatives, and
+# explicit labels that look like the names the generator hands out itself.
+_HLR = "start: a=chain ENDMARKER { a }\nsign: 'm' { 'neg' } | p='p'* { 'pos' }\nchain: s=sign c=chain 'x' { (s, c, 'x') } | 'w' { 'w' }\n"
+CONFORMING_GRAMMARS = [
+    ("conforming", _HLR, "start", ["w", "x", "x"], ("ok", ("pos", ("pos", "w", "x"), "x"), 4), None),
+    ("conforming", _HLR, "start", ["w"], ("ok", "w", 2), None),
+    ("conforming", _HLR, "start", ["m", "w", "x", "x"], ("fail",), None),  # PEG is greedy: the inner chain takes both x
+    ("conforming", _HLR, "start", ["m", "w", "x"], ("fail",), None),
+    ("conforming", _HLR, "start", ["x"], ("fail",), None),
+    ("conforming", "start: name_1=NAME NAME NAME { (name_1.string, name.string) }\n", "start", ["a", "b", "c"], ("ok", ("a", "b"), 3), None),
+    ("conforming", "start: literal_1='a' 'b' 'c' { (literal_1.string, literal.string) }\n", "start", ["a", "b", "c"], ("ok", ("a", "b"), 3), None),
+    ("conforming", "start: name_1=NAME NAME NAME\n", "start", ["a", "b", "c"], ("ok", ["a", "b", "c"], 3), None),
+    ("conforming", "start: opt_1=['a'] ['b'] ['c'] 'x' { (opt_1, opt) }\n", "start", ["a", "b", "c", "x"], ("ok", ("a", "b"), 4), None),
+    ("conforming", "start: name_2=NAME a=NAME NAME NAME { (name_2.string, a.string, name.string, name_1.string) }\n", "start", ["a", "b", "c", "a"], ("ok", ("a", "b", "c", "a"), 4), None),
+]
+
+
 def check_known_grammar(fid, rules, rule, toks, want, recorded):
     try:
         cls, _code, _pg = build_parser_class(G.HEADER + rules)
@@ -405,6 +423,15 @@ def run(rep, tier, pool, variants=("shipped",)):
         )
     rep.extra["token_strings_x_rules"] = total_strings
     # the recorded deviations on grammars outside the well-formed class: still exactly what was recorded?
+    for o in pool.call("harness.props.c17:check_known_grammar", list(CONFORMING_GRAMMARS), timeout=60):
+        if o.get("k") in ("hang", "crash", "worker-exc", "not-run"):
+            rep.count("infra:" + o["k"])
+            continue
+        got = o["got"]
+        rep.case("hand-grammar:" + o["rules"] + repr(o.get("tokens")), True)
+        if list(got) != list(o["want"]) and repr(tuple(got)) != repr(tuple(o["want"])):
+            rep.violation(f"C17 generated parser != PEG semantics: rule {o.get('rule')} on {o.get('tokens')}: parser {short(repr(got), 50)} expected {short(repr(o['want']), 50)}",
+                          {"property": "C17", "grammar": o["rules"], "rule": o.get("rule"), "tokens": o.get("tokens"), "generated_parser": repr(got), "peg_semantics": repr(o["want"]), "oracle": "hand-computed PEG result (harness/props/c17.py:CONFORMING_GRAMMARS)"})
     for o in pool.call("harness.props.c17:check_known_grammar", list(KNOWN_GRAMMARS), timeout=60):
         if o.get("k") in ("hang", "crash", "worker-exc", "not-run"):
             rep.count("infra:" + o["k"])
